@@ -219,33 +219,27 @@ func runC11(c *Ctx) {
 
 	// ---- R11.5
 	sites := 0
-	var accept func(fn *ssa.Function, v ssa.Value, at ssa.Instruction, depth int) (bool, string)
-	accept = func(fn *ssa.Function, v ssa.Value, at ssa.Instruction, depth int) (bool, string) {
-		if depth > 3 {
-			return false, "too deep"
-		}
+	// acceptField: the receiver is field f of owner b, read at `at` in fn
+	acceptField := func(fn *ssa.Function, f *types.Var, b ssa.Value, at ssa.Instruction, depth int) (bool, string, bool) {
 		p := ix.proverFor(fn)
-		inner := unwrap(v, true)
-		// a *Row (lazy creation)
-		if pt, ok := inner.Type().(*types.Pointer); ok && isNamed(pt.Elem(), modPath, "Row") {
-			return true, "a *Row: its AddError creates the container on demand"
-		}
-		if f, b := loadedField(inner); f != nil {
+		ok, why, handled := func() (bool, string, bool) {
+			res := func(o bool, w string) (bool, string, bool) { return o, w, true }
+			_ = res
 			if f == tabEC {
-				return true, "the table's own container (set at construction)"
+				return true, "the table's own container (set at construction)", true
 			}
 			if f == rowEC {
 				// attached: dominated by a store of the same row's container in this function
 				for _, es := range c.StoresTo(rowEC) {
 					if es.Fn == fn && p.canon(es.Base) == p.canon(b) && instrDominates(es.St, at) {
-						return true, "the row's container was set earlier in this function"
+						return true, "the row's container was set earlier in this function", true
 					}
 				}
 				// or the row is the receiver and every caller passes a row taken from the table
 				if par, ok := b.(*ssa.Parameter); ok && len(fn.Params) > 0 && par == fn.Params[0] {
 					sitesOf := ix.callSitesOf(fn)
 					if len(sitesOf) == 0 {
-						return false, "no callers"
+						return false, "no callers", true
 					}
 					var rowFromTable func(sf *ssa.Function, a ssa.Value, d int) bool
 					rowFromTable = func(sf *ssa.Function, a ssa.Value, d int) bool {
@@ -295,12 +289,56 @@ func runC11(c *Ctx) {
 							}
 						}
 						if !okRow {
-							return false, "caller " + FuncName(s.Fn) + " passes a row that is not taken from the table"
+							return false, "caller " + FuncName(s.Fn) + " passes a row that is not taken from the table", true
 						}
 					}
-					return true, "the row comes from the table's header or row list at every call (installed rows share the table's container: R11.3)"
+					return true, "the row comes from the table's header or row list at every call (installed rows share the table's container: R11.3)", true
 				}
-				return false, "the row's container may still be nil here (row not known to be in a table): AddError on it drops the error"
+				return false, "the row's container may still be nil here (row not known to be in a table): AddError on it drops the error", true
+			}
+			return false, "", false
+		}()
+		return ok, why, handled
+	}
+	var accept func(fn *ssa.Function, v ssa.Value, at ssa.Instruction, depth int) (bool, string)
+	accept = func(fn *ssa.Function, v ssa.Value, at ssa.Instruction, depth int) (bool, string) {
+		if depth > 3 {
+			return false, "too deep"
+		}
+		inner := unwrap(v, true)
+		// a *Row (lazy creation)
+		if pt, ok := inner.Type().(*types.Pointer); ok && isNamed(pt.Elem(), modPath, "Row") {
+			return true, "a *Row: its AddError creates the container on demand"
+		}
+		if f, b := loadedField(inner); f != nil {
+			if ok, why, handled := acceptField(fn, f, b, at, depth); handled {
+				return ok, why
+			}
+		}
+		// a pointer to the place where the container is kept (**ErrorContainer), read when needed: judged as that
+		// field of that owner at each call site
+		if u, isU := inner.(*ssa.UnOp); isU && u.Op == token.MUL {
+			if par, isPar := u.X.(*ssa.Parameter); isPar {
+				idx := -1
+				for i, q := range fn.Params {
+					if q == par {
+						idx = i
+					}
+				}
+				sitesOf := ix.callSitesOf(fn)
+				if idx >= 0 && len(sitesOf) > 0 {
+					for _, s := range sitesOf {
+						fa, isFA := s.Call.Common().Args[idx].(*ssa.FieldAddr)
+						if !isFA {
+							return false, "caller " + FuncName(s.Fn) + " passes a pointer that is not the address of a container field"
+						}
+						ok, why, handled := acceptField(s.Fn, fieldOfFieldAddr(fa), fa.X, s.Call.(ssa.Instruction), depth+1)
+						if !handled || !ok {
+							return false, "caller " + FuncName(s.Fn) + ": " + why
+						}
+					}
+					return true, "the address of a container field; every caller passes an acceptable one"
+				}
 			}
 		}
 		if par, ok := inner.(*ssa.Parameter); ok {
